@@ -12,7 +12,7 @@ STATE = {0x10: "CONNECTING", 0x11: "CONNECTED", 0x12: "READY", 0x13: "WAITDWA",
          0x1a: "DISCONNECTING", 0x1b: "CLOSING", 0x1c: "CLOSED"}
 
 DEFAULT_NODE = {"host": "node.r1", "realm": "r1", "idle": 30, "dwa": 4, "cer": 4, "cea": 4,
-                "wakeup": 6, "retx": 10240, "validate": True, "listen": True}
+                "wakeup": 6, "retx": 10240, "validate": True, "listen": True, "samehbh": False}
 
 
 def peer_cfg(name, realm="r1", addrs=True, persistent=False, default=False, always=False, rwait=30,
@@ -67,7 +67,7 @@ class World:
         simrt.install(self.s)
         self.s.fine = fine
         if small_ids:
-            self.s.rng = SmallIds()
+            self.s.rng = SmallIds(same=bool(nc.get("samehbh")))
         self.t0 = int(self.s.now)
         self.node = N.node.Node(nc["host"], nc["realm"], ip_addresses=["10.0.0.1"] if nc["listen"] else None,
                                 tcp_port=3868 if nc["listen"] else None)
@@ -245,7 +245,7 @@ class World:
             v = getattr(n, name, None)
             if v is None:
                 return -1
-            return sum(len(x) for x in v.values()) if deep else len(v)
+            return len(v) + sum(len(x) for x in v.values()) if deep else len(v)     # deep: keys and the entries under them
         out["tb"] = [size("connections"), size("peer_sockets"), size("socket_peers"), size("_half_ready_connections"),
                      size("_peer_waiting_answer", True), size("_app_waiting_answer"), size("_origin_waiting_answer"),
                      sum(1 for t in self.s.threads if t.is_alive() and getattr(t, "role", ("",))[0] in ("rd", "wr")),
@@ -303,12 +303,13 @@ BASE_TIME = 1699999744.0   # low 12 bits zero: end-to-end ids start at the small
 class SmallIds:
     """random shim policy: small deterministic identifiers (any value in range is a legal draw)."""
 
-    def __init__(self):
+    def __init__(self, same=False):
         self.k = 0
+        self.same = same     # every connection's hop-by-hop generator starts at the same value
 
     def randint(self, a, b):
         self.k += 1
-        return min(b, max(a, 1000 * self.k))
+        return min(b, max(a, 1000 * (min(self.k, 2) if self.same else self.k)))
 
     def getrandbits(self, k):
         return 77
@@ -354,6 +355,9 @@ def make_app(world, a):
             mode = self.mode
             if callable(mode):
                 return mode(self, message)
+            if mode == "alt":           # no answer to the 1st, 3rd, ... request; an answer at once to the others
+                self.nreq = getattr(self, "nreq", 0) + 1
+                mode = "none" if self.nreq % 2 == 1 else "answer"
             if mode == "raise":
                 raise RuntimeError("handler failed")
             if mode == "answer":
